@@ -78,6 +78,48 @@ def param_blind_caches(ctx, modname, only_prefix=None):
     return looked, hits
 
 
+def copied_memos(ctx, modname):
+    """objects made by copy(self) / copy.copy(self) in a class that memoises something in an attribute: the copy carries the
+    memo of the original although its fields are about to be changed.  -> (copies inspected, [(module, function, memo attribute, node)])"""
+    mod = ctx.repo.module(modname)
+    # memo attributes per class: set to None in __init__, assigned elsewhere under a test of themselves
+    memo = {}
+    for qn, fn in mod.functions.items():
+        if "." not in qn or qn.endswith(".__init__"):
+            continue
+        c = qn.split(".")[0]
+        for st in ast.walk(fn):
+            if isinstance(st, ast.If):
+                tested = {x.attr for x in ast.walk(st.test) if isinstance(x, ast.Attribute) and dotted(x.value) == "self"}
+                for b in st.body + st.orelse:
+                    for a in ast.walk(b):
+                        if isinstance(a, ast.Assign):
+                            for t in a.targets:
+                                if isinstance(t, ast.Attribute) and dotted(t.value) == "self" and t.attr in tested:
+                                    memo.setdefault(c, set()).add(t.attr)
+    hits, looked = [], 0
+    for qn, fn in mod.functions.items():
+        if "." not in qn:
+            continue
+        c = qn.split(".")[0]
+        attrs = set()
+        for m2, c2 in ctx.repo.mro(mod.name, c):
+            if m2 == mod.name:
+                attrs |= memo.get(c2, set())
+        if not attrs:
+            continue
+        for st in ast.walk(fn):
+            if isinstance(st, ast.Assign) and len(st.targets) == 1 and isinstance(st.targets[0], ast.Name) and isinstance(st.value, ast.Call) \
+                    and ast.unparse(st.value.func) in ("copy", "copy.copy", "copy.deepcopy", "deepcopy") and st.value.args and dotted(st.value.args[0]) == "self":
+                looked += 1
+                local = st.targets[0].id
+                reset = {t.attr for a in ast.walk(fn) if isinstance(a, ast.Assign) for t in a.targets
+                         if isinstance(t, ast.Attribute) and isinstance(t.value, ast.Name) and t.value.id == local}
+                for a_ in sorted(attrs - reset):
+                    hits.append((mod, fn, a_, st))
+    return looked, hits
+
+
 def state_blind_caches(ctx, modname, only_prefix):
     """methods (of the classes named by only_prefix) that compute a value from the object's *current* fields, keep it in
     `self.<A>` the first time (`if self.A is None: self.A = f(self.fields)`) and answer from `self.A` afterwards: later changes
@@ -140,6 +182,11 @@ def memo_obligation(ctx, modnames, what):
         for mod, fn, attr, p, n in hits:
             out.append(ctx.bad("%s:%s" % (mn, fn.name), "`self.%s` caches a value computed from the argument `%s` and is returned on later calls whatever the argument is "
                                                         "(%s)" % (attr, p, what), n.ast, mod, key="param-blind-cache:" + attr))
+        c_, chits = copied_memos(ctx, mn)
+        looked += c_
+        for mod, fn, attr, n in chits:
+            out.append(ctx.bad("%s:%s" % (mn, fn.name), "`%s` copies the object together with its memoised `%s`: the copy answers from the original's cached value after its "
+                                                        "fields are changed (%s)" % (ast.unparse(n), attr, what), n, mod, key="copied-memo:" + attr))
         b, ghits = global_table_caches(ctx, mn)
         users += b
         for mod, fn, table, missing, n in ghits:
